@@ -1,4 +1,5 @@
 import TexcraftModel.Lemmas.C20GMap
+import TexcraftModel.Lemmas.C20Vec
 import TexcraftModel.Lemmas.C20Interner
 import TexcraftModel.Lemmas.C20Kmp
 import TexcraftModel.Lemmas.C20Tags
@@ -18,7 +19,11 @@ Scoped map (`Model/C20.lean`, generic in key and value type):
   same abstract state (visible values *and* every saved snapshot), hence the same results and
   reads under every further history;
 * `vec_backing_*` — the `Vec<Option<V>>` backing obeys the same get/insert/remove/iter laws as
-  the association-list backing of the model.
+  the association-list backing of the model;
+* `vgmap_refines_run`, `vgmap_get_run`, `vgmap_iterAll_roundtrip_run` — the same container code
+  instantiated with the `Vec<Option<V>>` backing (`GroupingVec`, `Model/C20Vec.lean`) meets the same
+  specification for every history, and its `iter_all` → `FromIterator` round trip likewise
+  (by a step-for-step simulation `Sim` with the association-list instance).
 
 Interner (`Model/C20Interner.lean`), for **every** hash function (nothing assumed: a constant
 one included): `intern_total`, `intern_key_eq_iff`, `resolve_intern`, `resolve_stable`,
@@ -116,6 +121,40 @@ theorem vec_backing_iter (l : List (Option V)) (k : Nat) (v : V) :
 theorem vec_backing_len (l : List (Option V)) : len l = (iter l).length := len_eq_iter l
 
 end VecBacking
+
+/-! ### `GroupingVec`: the container code over the `Vec<Option<V>>` backing -/
+section VGMap
+variable {V : Type}
+
+/-- Step-for-step simulation between the two instances (same outputs, states stay related). -/
+theorem vgmap_simulates (vm : VGMap V) (m : GMap Nat V) (op : Op Nat V) (h : Sim vm m) :
+    Sim (vm.step op).1 (m.step op).1 ∧ (vm.step op).2 = (m.step op).2 :=
+  C20.sim_step vm m op h
+
+/-- Every history on a `GroupingVec`: same outputs as the stack of snapshots. -/
+theorem vgmap_refines_run (ops : List (Op Nat V)) :
+    ((VGMap.empty : VGMap V).run ops).2 = (Snap.init.run ops).2 :=
+  C20.vgmap_refines_run ops
+
+/-- … and every key reads as the specification's visible value afterwards. -/
+theorem vgmap_get_run (ops : List (Op Nat V)) (k : Nat) :
+    ((VGMap.empty : VGMap V).run ops).1.get k = (Snap.init.run ops).1.cur k :=
+  C20.vgmap_get_run ops k
+
+/-- `iter_all` → `FromIterator` on a `GroupingVec` reached by any history: succeeds, and the rebuilt
+map answers every continuation like the original and like the specification. -/
+theorem vgmap_iterAll_roundtrip_run (pre post : List (Op Nat V)) :
+    ∃ items, ((VGMap.empty : VGMap V).run pre).1.iterAll = .ok items ∧
+      ((VGMap.fromIter items).run post).2 = (((VGMap.empty : VGMap V).run pre).1.run post).2 ∧
+      ((VGMap.fromIter items).run post).2 = ((Snap.init.run pre).1.run post).2 :=
+  C20.vgmap_iterAll_roundtrip_run pre post
+
+example : ((VGMap.empty : VGMap Nat).run
+    [.insert 3 1 .loc, .beginGroup, .insert 3 2 .loc, .insert 0 5 .loc, .get 3, .endGroup, .get 3, .get 0]).2
+    = [.existed false, .unit, .existed true, .existed false, .val (some 2), .unit, .val (some 1), .val none] := by
+  decide
+
+end VGMap
 
 /-! ## Interner — for every hash function `h` -/
 namespace Intern
